@@ -119,8 +119,27 @@ def table_problems(o):
     if sorted(printed) != sorted(set(labels)):
         probs.append("table lists %r, groups are %r" % (sorted(printed)[:6], sorted(set(labels))[:6]))
         return probs
+    # the summary lists every reported group once, in write_out_order, with the pKa of the API to the printed precision
+    # (evaluated on the rows themselves, so that two groups which print the same label are both required)
+    srows = []
+    for l in lines[i1 + 2:]:
+        if l.startswith("-----"):
+            break
+        m = re.match(r"^   (.{9}) (.{8}) (.{10}) ", l)
+        if m:
+            srows.append((m.group(1), m.group(2).strip()))
+    want_rows = [("%9s" % g.label, "%.2f" % g.pka_value) for rt in params.write_out_order for g in avr.groups
+                 if g.residue_type == rt and not (g.coupled_titrating_group and params.remove_penalised_group)]
+    if srows != want_rows:
+        k = next((i for i, (a, b) in enumerate(zip(srows, want_rows)) if a != b), min(len(srows), len(want_rows)))
+        probs.append("summary has %d rows, the reported groups are %d; first difference at row %d: %r vs %r" % (
+            len(srows), len(want_rows), k, srows[k] if k < len(srows) else None, want_rows[k] if k < len(want_rows) else None))
+    # the determinant table has one block per shown group (a block starts with the line that carries the pKa)
+    nblocks = sum(1 for l in lines[i0 + 2:i1 - 1] if len(l) >= 9 + 40 + 54 and not l.startswith("---") and l[9:49].strip())
+    if nblocks != len(shown):
+        probs.append("determinant table has %d blocks, the shown groups are %d" % (nblocks, len(shown)))
     if len(set(labels)) != len(labels):
-        return probs      # duplicate labels: rows cannot be attributed (outside the claim)
+        return probs      # duplicate labels: the rows of a block cannot be attributed to one of the twins
     for g in shown:
         rec = printed[g.label]
         for key, t in (("sc", "sidechain"), ("bb", "backbone"), ("cb", "coulomb")):
